@@ -59,3 +59,29 @@ if os.environ.get("PHYCLONE_VERIF") == "1" and os.environ.get("PCV_WORKER_START_
     except Exception as _ex:  # never break the run
         import sys
         print("pcv sitecustomize: could not install worker start delays: %r" % (_ex,), file=sys.stderr)
+
+# Timing perturbation (PCV_SLOW_CALLS="<module>:<function>:<seconds>:<calls>"): the first <calls> calls of a module-level
+# function sleep before running; arguments and results are untouched (what a loaded machine does to a routine).
+if os.environ.get("PHYCLONE_VERIF") == "1" and os.environ.get("PCV_SLOW_CALLS"):
+    try:
+        import functools as _ft
+        import importlib as _il
+        import time as _t2
+
+        _mod, _fn, _secs2, _calls = os.environ["PCV_SLOW_CALLS"].split(":")
+        _m = _il.import_module(_mod)
+        if hasattr(_m, _fn):
+            _orig_fn = getattr(_m, _fn)
+            _left = [int(_calls)]
+
+            @_ft.wraps(_orig_fn)
+            def _slow(*a, **k):
+                if _left[0] > 0:
+                    _left[0] -= 1
+                    _t2.sleep(float(_secs2))
+                return _orig_fn(*a, **k)
+
+            setattr(_m, _fn, _slow)
+    except Exception as _ex:  # never break the run
+        import sys
+        print("pcv sitecustomize: could not install the timing perturbation: %r" % (_ex,), file=sys.stderr)
